@@ -668,8 +668,11 @@ Definition list_set_prog_stmt : Prop :=
   forall sch h t r i v, wf sch = true -> rp_heap_okb sch h = true -> str_val_okb t v = true -> vp_agrees sch h (OLSet (PList t r) i v).
 Definition list_append_prog_stmt : Prop :=
   forall sch h t r v, wf sch = true -> rp_heap_okb sch h = true -> str_val_okb t v = true -> vp_agrees sch h (OLAppend (PList t r) v).
+(* the view must be live, as for Len: `v := new(T)` runs before `*x.list` is read, so a dangling view that points one past the end of
+   the heap, at a repeated field of the type being allocated, would come alive (found by the proof, T11:
+   ReflectViewProgProofs.list_appendmutable_prog_counterexample); no history produces a dangling view (vp_view_live_kept, vp_result_live) *)
 Definition list_appendmutable_prog_stmt : Prop :=
-  forall sch h t r, wf sch = true -> rp_heap_okb sch h = true -> vp_agrees sch h (OLAppendMutable (PList t r)).
+  forall sch h t r, wf sch = true -> rp_heap_okb sch h = true -> view_liveb h (PList t r) = true -> vp_agrees sch h (OLAppendMutable (PList t r)).
 Definition list_truncate_prog_stmt : Prop :=
   forall sch h t r n, wf sch = true -> rp_heap_okb sch h = true -> vp_agrees sch h (OLTruncate (PList t r) n).
 Definition list_newelement_prog_stmt : Prop :=
@@ -711,7 +714,8 @@ Definition map_range_stop_prog_stmt : Prop :=
 
 (* all at once: every operation (the message-level ones and those on a receiver of the wrong kind are Reflect.step by definition) *)
 Definition view_prog_correct_stmt : Prop :=
-  forall sch h o, wf sch = true -> rp_heap_okb sch h = true -> vp_op_okb h o = true -> vp_agrees sch h o.
+  forall sch h o, wf sch = true -> rp_heap_okb sch h = true -> vp_op_okb h o = true ->
+    (forall v, o = OLAppendMutable v -> view_liveb h v = true) -> vp_agrees sch h o.
 
 (* the canonical wrapper of a field is the canonical wrapper of its element (key, value) type: what ties [canon_view] (what the plugin
    emits per field, compared with the translation on every run) to the statements above *)
@@ -736,7 +740,7 @@ Definition vp_result_live_stmt : Prop :=
 
 (* ---- the same statements on one case, for the driver ---------------------------------------------------------------------- *)
 Definition view_prog_law (sch : schema) (h : heap) (o : op) : bool :=
-  negb (wf sch && rp_heap_okb sch h && vp_op_okb h o) ||
+  negb (wf sch && rp_heap_okb sch h && vp_op_okb h o && match o with OLAppendMutable v => view_liveb h v | _ => true end) ||
   match vp_canon_step sch h o with
   | Some res => vp_res_relb res (step sch h o)
   | None => false
